@@ -5,6 +5,8 @@ import (
 	"fmt"
 	"github.com/bilibili/gengine/context"
 	"reflect"
+	"runtime"
+	"strings"
 )
 
 type RuleEntity struct {
@@ -33,7 +35,25 @@ func (r *RuleEntity) AcceptInteger(val int64) error {
 }
 
 
-func (r *RuleEntity) Execute(dc *context.DataContext) (interface{}, error, bool) {
+func (r *RuleEntity) Execute(dc *context.DataContext) (res interface{}, err error, returned bool) {
+
+	// a panic anywhere below (non-boolean condition, nil field access, index out of range ...)
+	// must fail this rule only, not the caller nor the goroutine the engine runs the rule on
+	defer func() {
+		if e := recover(); e != nil {
+			size := 1 << 10 * 10
+			buf := make([]byte, size)
+			rs := runtime.Stack(buf, false)
+			if rs > size {
+				rs = size
+			}
+			buf = buf[:rs]
+			eMsg := fmt.Sprintf("rule \"%s\" executed, %+v \n%s", r.RuleName, e, string(buf))
+			eMsg = strings.ReplaceAll(eMsg, "panic", "error")
+			res, err, returned = nil, errors.New(eMsg), false
+		}
+	}()
+
 	v, e, b := r.RuleContent.Execute(dc, make(map[string]reflect.Value))
 	if v == reflect.ValueOf(nil) {
 		return nil, e, b
